@@ -804,7 +804,7 @@ def main():
             sizes = list(sizes_pool[rng.randint(0, len(sizes_pool))])
             blobs = bool(rng.randint(0, 2))
             w = gen_weights(np, rng, sum(sizes))
-            n = int(rng.randint(1, 9)) if ci % 97 != 5 else 70001   # now and then more draws than 2^16 (and not a multiple of it)
+            n = 70001 if (ci % 97 == 5 and ci < int(os.environ.get("C06_LARGE_BELOW", "400"))) else int(rng.randint(1, 9))   # four times (either tier) more draws than 2^16, not a multiple of it; more of them would not fit the judging module
             seed = int(rng.randint(0, 2 ** 31 - 1))
             case, info, err = record_mult(np, StateManager, Resampler, sizes, blobs, n, seed, w)
             zero, got = case["zero"], case["out"]
@@ -827,15 +827,27 @@ def main():
         impl_counterexamples[inv] = {k_: last.get(k_) for k_ in ("fam", "n", "a", "Q", "k", "idx", "err")}
 
     # ---- 5. TLC judges every observed outcome that is not literally the specification's
-    obs = obs_module([c for c, _ in sys_cases], [c for c, _ in struct_cases], [c for c, _ in mult_cases],
+    # (thorough tier: the few multinomial cases with more than 2^16 draws are judged in a TLC run of their own - together with the
+    # 6000 small cases the judging module does not fit TLC's heap; the quick tier judges everything in one run)
+    big = [] if quick else [k_ for k_, (c, _) in enumerate(mult_cases) if c["n"] > 1000]
+    main_idx = [k_ for k_ in range(len(mult_cases)) if k_ not in set(big)]
+    obs = obs_module([c for c, _ in sys_cases], [c for c, _ in struct_cases], [mult_cases[k_][0] for k_ in main_idx],
                      [c for c, _ in cell_cases])
     jres = tlc.run_tlc("ResampleTrace", TRACE_CFG, dump=True, coverage=True, extra_modules={"ResampleObs.tla": obs})
     if jres.status != "ok":
         raise RuntimeError(f"ResampleTrace: {jres.violated} violated (inconsistent trace module)\n{jres.error_trace}")
     verdicts = {}
     for st in iter_done_states(jres.dump_path):
-        verdicts[(st["kind"], st["c"])] = st["fails"]
+        verdicts[(st["kind"], (main_idx[st["c"] - 1] + 1) if st["kind"] == "mult" else st["c"])] = st["fails"]
     jres.cleanup()
+    if big:
+        bres = tlc.run_tlc("ResampleTrace", TRACE_CFG, dump=True, coverage=True, extra_modules={"ResampleObs.tla": obs_module([], [], [mult_cases[k_][0] for k_ in big], [])})
+        if bres.status != "ok":
+            raise RuntimeError(f"ResampleTrace (large draws): {bres.violated} violated (inconsistent trace module)\n{bres.error_trace}")
+        for st in iter_done_states(bres.dump_path):
+            if st["kind"] == "mult":
+                verdicts[("mult", big[st["c"] - 1] + 1)] = st["fails"]
+        bres.cleanup()
     expect = len(sys_cases) + len(struct_cases) + len(mult_cases) + len(cell_cases)
     if len(verdicts) != expect:
         raise RuntimeError(f"verdicts are not total: {len(verdicts)} of {expect}")
